@@ -228,8 +228,10 @@ def build(reg):
         ghost=ghost))
     HAS = "'id' in request"
     reg.add(Contract(
-        f"{LS}.handle", prop="C01", receiver_cls="LangServer", params={"request": REQ}, fields=CONN,
+        f"{LS}.handle", prop="C01", receiver_cls="LangServer",
+        params={"request": REQ, "h_outcome": INT, "h_code": JSON}, fields=CONN,
         modifies=["self.conn.responses", "self.conn.resp_ids", "self.running"],
+        requires=[("handler_not_called_yet", "h_outcome == -1")],
         ensures=[
             ("notification_silent", f"implies(not {HAS}, self.conn.responses == old(self.conn.responses) "
                                     "and self.conn.resp_ids == old(self.conn.resp_ids))"),
@@ -302,7 +304,46 @@ RESIDUAL = ("JSON-serialisability of every handler result is not decided here (j
 
 
 def replay(obligation, model, rep):
-    return {"confirmed": None, "detail": "protocol-level counter-models are replayed by search() on a real session"}
+    """Counter-models of `handle`: run the real method on the model's request, with stub handlers realising each
+    outcome of the family contract when the method is in the dispatch table."""
+    if "LangServer.handle" not in obligation or not isinstance(model.get("request"), dict):
+        return {"confirmed": None, "detail": "protocol-level counter-models are replayed by search() on a real session"}
+    from replay.harness import make_server, parse_out
+    from fortls.langserver import JSONRPC2Error
+    from pyvc.source import Repo
+    req = {"jsonrpc": "2.0", "method": model["request"].get("method", "")}
+    if "id" in model["request"]:
+        req["id"] = 41
+    table, _ = dispatch_table(Repo())
+
+    def returns(r):
+        return {"ok": 1}
+
+    def rpc_error(r):
+        raise JSONRPC2Error(code=-32001, message="boom")
+
+    def other_error(r):
+        raise RuntimeError("boom")
+
+    for stub, outcome in ((returns, 0), (rpc_error, 1), (other_error, 2)):
+        srv, rw = make_server()
+        expr = table.get(req["method"])
+        if expr and expr.startswith("self."):
+            setattr(srv, expr[5:], stub)
+        try:
+            srv.handle(dict(req))
+        except Exception as e:  # noqa: BLE001
+            return {"confirmed": True, "request": req, "handler_outcome": outcome, "problem": f"handle raised {e!r}"}
+        out = [m for m in parse_out(rw.out) if "result" in m or "error" in m]
+        want = 1 if "id" in req else 0
+        if len(out) != want or (want and out[0].get("id") != req["id"]):
+            return {"confirmed": True, "request": req, "handler_outcome": outcome,
+                    "problem": f"{len(out)} response(s) for a message {'with' if want else 'without'} an id",
+                    "responses": out}
+        if want and req["method"] not in table and out[0].get("error", {}).get("code") != -32601:
+            return {"confirmed": True, "request": req, "problem": "unknown method not answered with -32601",
+                    "responses": out}
+    return {"confirmed": False, "request": req, "detail": "the real handle behaves as specified on this request"}
 
 
 def _session_check(messages, files=None):
